@@ -54,6 +54,7 @@ def run(chk):
     r6_time_fields(chk, repo)
     r7_independent_expectation(chk, repo)
     r8_layout(chk, repo)
+    r9_unconditional_dtype_checks(chk, repo)
 
 
 # ------------------------------------------------------------------------------------ R1
@@ -584,6 +585,24 @@ def _sufficient(test):
     return [test]
 
 
+def r9_unconditional_dtype_checks(chk, repo):
+    chk.describe("C12.R9", "the dtype comparisons are made for every delivered array, with or without rows: an empty array of another dtype is still a contract violation (and is stored under the declared dtype)")
+    R = "C12.R9"
+    init = repo.func("Chunk.__init__", CHUNK)
+    cfg = cfg_of(init)
+    rs = [n for n in cfg.stmt_nodes() if isinstance(n.stmt, ast.Raise) and any("dtype" in norm(e) and isinstance(e, ast.Compare) for e, pol, g in cfg.guard_literals(n) if pol is True and g.owner is enclosing(n.stmt, (ast.If,)))]
+    chk.check(len(rs) >= 1, R, init, None, "Chunk.__init__ has no dtype comparison", site_text="Chunk.__init__: dtype comparison present")
+    for n in rs:
+        lens = [t for t, p_ in cfg.guard_facts(n) if t.startswith("len(") and p_ is True]
+        chk.check(not lens, R, init, n.stmt, f"the dtype check of the chunk constructor only runs under `{lens[0] if lens else ''}`: empty data of another dtype is accepted", site_text="Chunk.__init__: dtype checked regardless of the number of rows", site={"function": init.qualname, "rule": "unconditional", "raise": head(n.stmt, 40)})
+    cd = repo.func("Plugin._check_dtype", PLUGIN)
+    ccfg = cfg_of(cd)
+    tests = [n for n in ccfg.stmt_nodes() if isinstance(n.stmt, ast.If) and any(isinstance(x, ast.Compare) and isinstance(x.ops[0], ast.NotEq) for x in ast.walk(n.stmt.test)) and any(isinstance(b, ast.Raise) and "PluginGaveWrongOutput" in norm(b.exc) for b in n.stmt.body)]
+    chk.check(len(tests) >= 1, R, cd, None, "_check_dtype has no dtype comparison", site_text="_check_dtype: dtype comparison present")
+    ok, path = ccfg.every_path([ccfg.entry], [ccfg.exit_return], lambda n: n in tests, "n")
+    chk.check(ok, R, cd, None, "_check_dtype can return without having compared the dtypes (e.g. an early return for arrays without rows)", site_text="_check_dtype: every normal path passes the dtype comparison", site={"function": cd.qualname, "rule": "unconditional"})
+
+
 def r8_layout(chk, repo):
     chk.describe("C12.R8", "wherever a delivered array's dtype is compared with the declared one after remove_titles_from_dtype (which rebuilds both as packed), the memory layout (field offsets, itemsize) is compared as well: padded data written under a packed dtype cannot be read back")
     R = "C12.R8"
@@ -625,6 +644,10 @@ def r8_layout(chk, repo):
 
 
 WITNESSES = [
+    W("empty arrays skip _check_dtype", "C12.R9", PLUGIN,
+      "expect = strax.remove_titles_from_dtype(self.dtype_for(d))\n        if not isinstance(expect, np.dtype):", "if not len(x):\n            return\n        expect = strax.remove_titles_from_dtype(self.dtype_for(d))\n        if not isinstance(expect, np.dtype):"),
+    W("chunk constructor checks the dtype only of non-empty data", "C12.R9", CHUNK,
+      "expected_dtype = strax.remove_titles_from_dtype(dtype)\n        got_dtype = strax.remove_titles_from_dtype(self.data.dtype)\n        if expected_dtype != got_dtype:", "expected_dtype = strax.remove_titles_from_dtype(dtype)\n        got_dtype = strax.remove_titles_from_dtype(self.data.dtype)\n        if len(self.data) and expected_dtype != got_dtype:"),
     W("saver reads the mailbox unchecked (the original defect)", "C12.R5", "strax/storage/common.py",
       "chunks = rechunker.receive(next(checked_source))", "chunks = rechunker.receive(next(source))"),
     W("layout not compared in _check_dtype (the original defect)", "C12.R8", PLUGIN,
